@@ -10,6 +10,10 @@ wang_gamma     D(Gamma; n) - D_plain(Gamma) == (4 pi/V) f (n.Z_j)_a (n.Z_j')_b /
 wang_length    D(Gamma; lambda n) == D(Gamma; n) for all lambda > 0 (exact, per entry).
 wang_comm      at every non-zero commensurate q the Wang term vanishes (|D_wang - D_plain| <= 1e-9) for all Z in a box.
 zero_born      Z = 0: D_nac(q) == D_plain(q) at listed q, Wang and Gonze-Lee, for all force constants and eps.
+sym_born       symmetrize_borns_and_epsilon (_take_average_of_borns, _symmetrize_2nd_rank_tensor, primitive-cell selection) executed
+               in E2 on *symbolic* Born and dielectric tensors: output == space-group average (harness oracle, Cartesian rotations
+               checked orthogonal) minus the mean charge; dielectric tensor == point-group average; a second application changes
+               nothing; tensors selected for a primitive cell belong to the atoms at the primitive positions.  LRA.
 gl_direction   Gonze-Lee: D(Gamma; n) - D(Gamma; n0) == term(n) - term(n0) for symbolic n (Z, eps concrete, real
                make_Gonze_nac_dataset run concretely) and D(Gamma; n0) ~ D_plain + term(n0) to the reciprocal-sum precision.
 """
@@ -32,6 +36,7 @@ def units(tier):
     u = [("wang_gamma", "tric2", "211", "Zeps"), ("wang_gamma", "tric2", "211", "n"),
          ("wang_length", "tric2", "211"), ("wang_comm", "tric2", "211"), ("zero_born", "tric2", "211", "wang"),
          ("zero_born", "tric2", "211", "gonze"), ("gl_direction", "tric2", "211")]
+    u += [("sym_born", c, "-") for c in SB_CRYSTALS]
     if tier == "thorough":
         u += [("wang_gamma", "mono2", "nd1", "Zeps"), ("wang_gamma", "hex2", "211", "n"), ("wang_comm", "cscl", "311"), ("wang_gamma", "tric2", "211", "all"),
               ("gl_direction", "mono2", "111"), ("zero_born", "cscl", "211", "gonze"), ("wang_length", "hex2", "211")]
@@ -84,8 +89,135 @@ def sym_eps(prefix="e"):
     return rows, list(ev.values()), A
 
 
+# ---------------------------------------------------------------------------------------------- symmetrize_borns_and_epsilon
+def _sb_crystals():
+    from checks.c16 import CRYSTALS
+    d = {k: (v[0], v[1], v[2], None) for k, v in CRYSTALS.items() if k != "nacl"}
+    a = 5.6
+    d["nacl_conv"] = (["Na"] * 4 + ["Cl"] * 4, [[a, 0, 0], [0, a, 0], [0, 0, a]],
+                      [[0, 0, 0], [0, .5, .5], [.5, 0, .5], [.5, .5, 0], [.5, .5, .5], [.5, 0, 0], [0, .5, 0], [0, 0, .5]], [[0, .5, .5], [.5, 0, .5], [.5, .5, 0]])
+    d["wurtzite"] = (["Zn", "Zn", "S", "S"], [[3.8, 0, 0], [-1.9, 3.8 * np.sqrt(3) / 2, 0], [0, 0, 6.2]],
+                     [[1 / 3, 2 / 3, 0.0], [2 / 3, 1 / 3, 0.5], [1 / 3, 2 / 3, 0.375], [2 / 3, 1 / 3, 0.875]], None)
+    return d
+
+
+SB_CRYSTALS = ["P3", "P4", "P31", "rutile-like", "nacl_conv", "wurtzite"]
+
+
+def sym_born_unit(u, res):
+    harness.setup()
+    from phonopy.structure.atoms import PhonopyAtoms
+    from phonopy.structure.symmetry import Symmetry, symmetrize_borns_and_epsilon
+    cid = u[1]
+    symb, lat, pos, pmat = _sb_crystals()[cid]
+    cell = PhonopyAtoms(symbols=symb, cell=np.array(lat, dtype=float), scaled_positions=np.array(pos, dtype=float))
+    usym = Symmetry(cell)
+    ops = usym.symmetry_operations
+    L = cell.cell; n = len(cell)
+    perms = []; rcs = []
+    for r, t in zip(ops["rotations"], ops["translations"]):
+        newpos = cell.scaled_positions @ r.T + t
+        perm = []
+        for x in newpos:
+            d = cell.scaled_positions - x; d -= np.rint(d)
+            hit = np.where(np.abs(d @ L).max(axis=1) < 1e-4)[0]
+            if len(hit) != 1:
+                raise HarnessError("atom image not found")
+            perm.append(int(hit[0]))
+        Rc = L.T @ r @ np.linalg.inv(L.T)
+        if np.abs(Rc @ Rc.T - np.eye(3)).max() > 1e-8:
+            raise HarnessError("oracle rotation is not orthogonal")
+        perms.append(perm); rcs.append(Rc)
+    res.stat("operations", len(perms))
+    zs = harness.reals("z", n * 9); es = harness.reals("e", 9)
+    B = 0.02                       # |Z - Z_sym| stays below the 0.1 warning threshold, so run() takes one path
+    A = box(zs, -B, B) + box(es, -B, B)
+    Z = symnp.wrap_reals(zs, (n, 3, 3)); E = symnp.wrap_reals(es, (3, 3))
+
+    def avg_born(Zarr):
+        acc = symnp._zeros((n, 3, 3))
+        for perm, Rc in zip(perms, rcs):
+            for j in range(n):
+                acc[perm[j]] = acc[perm[j]] + np.dot(Rc, np.dot(Zarr[j], Rc.T))
+        acc = acc / float(len(perms))
+        mean = acc.sum(axis=0) / float(n)
+        return acc - mean
+
+    def avg_eps(Earr):
+        acc = symnp._zeros((3, 3))
+        for Rc in rcs:
+            acc = acc + np.dot(Rc, np.dot(Earr, Rc.T))
+        return acc / float(len(rcs))
+    ctx = harness.setup()
+    br = bridge.Bridge(ctx.shim, ctx.ir); br.install()
+    try:
+        with symnp.session(), symnp.engine() as eng:
+            for a in A:
+                eng.assume(a)
+            Zo, Eo = symmetrize_borns_and_epsilon(Z, E, cell)
+            Zo2, Eo2 = symmetrize_borns_and_epsilon(Zo, Eo, cell)
+            Zp = None
+            if pmat is not None:
+                Zp, _ = symmetrize_borns_and_epsilon(Z, E, cell, primitive_matrix=np.array(pmat, dtype=float))
+    finally:
+        br.uninstall()
+    key = "%s:sym_born:%s" % (PID, cid)
+
+    def decide(name, lhs, rhs, sub):
+        v, m, idx = assert_equal(res, name + " [%s]" % cid, symnp.unwrap(lhs), symnp.unwrap(rhs), A, tol=1e-10, chunk=27)
+        if v == "sat":
+            zv = harness.model_floats(m, zs).reshape(n, 3, 3); ev = harness.model_floats(m, es).reshape(3, 3)
+            ok, what = replay_sym_born(cid, zv, ev)
+            (res.violations if ok else res.unconfirmed).append({"key": key + ":" + sub, "what": what, "replay": {"crystal": cid, "Z": zv.tolist(), "eps": ev.tolist()}})
+        elif v == "unknown":
+            res.notes.append("inconclusive " + key + ":" + sub)
+    decide("symmetrised Born tensors == space-group average minus the mean (charge neutrality)", Zo, avg_born(Z), "born")
+    decide("symmetrised dielectric tensor == point-group average", Eo, avg_eps(E), "eps")
+    decide("symmetrising again changes nothing (Born)", Zo2, Zo, "idem_born")
+    decide("symmetrising again changes nothing (dielectric)", Eo2, Eo, "idem_eps")
+    if Zp is not None:
+        # tensors returned for the primitive cell are those of the unit-cell atoms sitting on the primitive atoms
+        from phonopy.structure.cells import get_primitive
+        prim = get_primitive(cell, np.array(pmat, dtype=float))
+        idx = []
+        for x in prim.scaled_positions @ prim.cell @ np.linalg.inv(L):
+            d = cell.scaled_positions - x; d -= np.rint(d)
+            hit = np.where(np.abs(d @ L).max(axis=1) < 1e-4)[0]
+            idx.append(int(hit[0]))
+        want = avg_born(Z)
+        decide("Born tensors selected for the primitive cell belong to the atoms at the primitive positions", Zp, symnp.symarray([want[i, a, b] for i in idx for a in range(3) for b in range(3)], (len(idx), 3, 3)), "prim")
+    live = any(isinstance(t, z3.ExprRef) for t in symnp.unwrap(Zo))
+    res.twins.append({"name": "sym_born twin: output depends on the symbols", "verdict": "sat" if live else "unsat"})
+    res.samples.append({"unit": res.unit, "atoms": n, "operations": len(perms), "symbols": len(zs) + len(es)})
+    return res
+
+
+def replay_sym_born(cid, zv, ev):
+    from phonopy.structure.atoms import PhonopyAtoms
+    from phonopy.structure.symmetry import Symmetry, symmetrize_borns_and_epsilon
+    symb, lat, pos, pmat = _sb_crystals()[cid]
+    cell = PhonopyAtoms(symbols=symb, cell=np.array(lat, dtype=float), scaled_positions=np.array(pos, dtype=float))
+    Zo, Eo = symmetrize_borns_and_epsilon(zv.copy(), ev.copy(), cell)
+    ops = Symmetry(cell).symmetry_operations
+    L = cell.cell; worst = 0.0
+    for r, t in zip(ops["rotations"], ops["translations"]):
+        Rc = L.T @ r @ np.linalg.inv(L.T)
+        worst = max(worst, float(np.abs(Rc @ Eo @ Rc.T - Eo).max()))
+        newpos = cell.scaled_positions @ r.T + t
+        for j, x in enumerate(newpos):
+            d = cell.scaled_positions - x; d -= np.rint(d)
+            k = int(np.argmin(np.abs(d @ L).max(axis=1)))
+            worst = max(worst, float(np.abs(Rc @ Zo[j] @ Rc.T - Zo[k]).max()))
+    worst = max(worst, float(np.abs(Zo.sum(axis=0)).max()))
+    Zo2, Eo2 = symmetrize_borns_and_epsilon(Zo.copy(), Eo.copy(), cell)
+    worst = max(worst, float(np.abs(Zo2 - Zo).max()), float(np.abs(Eo2 - Eo).max()))
+    return worst > 1e-10, "symmetrised Born/dielectric tensors are not invariant under the space group / not neutral / not idempotent: residual %.3g (%s)" % (worst, cid)
+
+
 def run_unit(u):
     res = Result("/".join(str(x) for x in u))
+    if u[0] == "sym_born":
+        return sym_born_unit(u, res)
     ctx = harness.setup()
     kind, gid, sid = u[0], u[1], u[2]
     method = "gonze" if (kind == "gl_direction" or (kind == "zero_born" and u[3] == "gonze")) else "wang"
@@ -337,8 +469,9 @@ def main(tier, seed):
     harness.setup()
     us = units(tier)
     chk.bounds = ["Born entries in [-2,2], dielectric tensor symmetric within +-0.2 of %s, direction n in [-1,1]^3 with |n|^2 >= 1/4 (fractional), lambda in (0.01,100)" % EPS0.tolist(),
-                  "geometries as listed; force constants concrete except in zero_born (symbolic)"]
-    chk.outside = ["Gonze-Lee with symbolic eps or Born charges (exp of a symbolic argument)", "'full terms' option", "symmetrize_borns_and_epsilon", "rounding"]
+                  "geometries as listed; force constants concrete except in zero_born (symbolic)",
+                  "sym_born: crystals %s, tensor entries in [-0.02, 0.02] (linear identities scale; the box keeps the 'symmetry largely broken' warning branch infeasible)" % SB_CRYSTALS]
+    chk.outside = ["Gonze-Lee with symbolic eps or Born charges (exp of a symbolic argument)", "'full terms' option", "rounding"]
     chk.assumptions = ["doubles as exact reals; nonlinear identities are posed per entry", "Gonze-Lee Gamma limit: only the direction dependence is symbolic; its absolute level is compared numerically within 1e-4 relative (the reciprocal-sum precision)"]
     chk.run_units(run_unit, us)
     return chk.finish()
